@@ -192,6 +192,25 @@ pub trait Check: Sync {
 }
 
 static TRACE: AtomicBool = AtomicBool::new(false);
+static SKIP: AtomicU64 = AtomicU64::new(0);
+
+/// number of leading cases of the unit a resumed worker has to skip (they were executed by an
+/// earlier worker that died on case `skip - 1`)
+pub fn skip_cases() -> u64 {
+    SKIP.load(Ordering::Relaxed)
+}
+
+/// like `trace_case`, for units that are plain lists of cases: `k` is the position in the unit,
+/// which lets the supervisor resume behind a case that killed the worker
+#[inline]
+pub fn trace_case_at(k: u64, f: impl FnOnce() -> Value) {
+    if TRACE.load(Ordering::Relaxed) {
+        let v = f();
+        let mut e = std::io::stderr().lock();
+        let _ = writeln!(e, "CVXCASE @{} {}", k, v);
+        let _ = e.flush();
+    }
+}
 
 pub fn trace_enabled() -> bool {
     TRACE.load(Ordering::Relaxed)
@@ -280,6 +299,9 @@ pub fn worker_main(check: &dyn Check, tier: Tier, lo: u64, hi: u64) -> i32 {
     if std::env::var("CVX_TRACE").map(|v| v == "1").unwrap_or(false) {
         TRACE.store(true, Ordering::Relaxed);
     }
+    if let Some(k) = std::env::var("CVX_SKIP").ok().and_then(|v| v.parse::<u64>().ok()) {
+        SKIP.store(k, Ordering::Relaxed);
+    }
     silence_panics();
     let mut out = ChunkResult::default();
     for u in lo..hi {
@@ -294,19 +316,22 @@ pub fn worker_main(check: &dyn Check, tier: Tier, lo: u64, hi: u64) -> i32 {
 
 enum WorkerOutcome {
     Ok(ChunkResult),
-    Died(String, Option<Value>),
-    Hung(Option<Value>),
+    Died(String, Option<(Option<u64>, Value)>),
+    Hung(Option<(Option<u64>, Value)>),
 }
 
-fn last_case_of(stderr: &[u8]) -> Option<Value> {
+/// the last case the worker announced: (position in the unit if known, case)
+fn last_case_of(stderr: &[u8]) -> Option<(Option<u64>, Value)> {
     let s = String::from_utf8_lossy(stderr);
-    s.lines()
-        .rev()
-        .find_map(|l| l.strip_prefix("CVXCASE "))
-        .and_then(|j| serde_json::from_str(j).ok())
+    let line = s.lines().rev().find_map(|l| l.strip_prefix("CVXCASE "))?;
+    if let Some(rest) = line.strip_prefix('@') {
+        let (k, j) = rest.split_once(' ')?;
+        return Some((k.parse().ok(), serde_json::from_str(j).ok()?));
+    }
+    Some((None, serde_json::from_str(line).ok()?))
 }
 
-fn run_worker(id: &str, tier: Tier, lo: u64, hi: u64, timeout: Duration, trace: bool) -> WorkerOutcome {
+fn run_worker(id: &str, tier: Tier, lo: u64, hi: u64, timeout: Duration, trace: bool, skip: u64) -> WorkerOutcome {
     let exe = std::env::current_exe().expect("current exe");
     let mut cmd = Command::new(exe);
     cmd.arg("worker")
@@ -321,6 +346,11 @@ fn run_worker(id: &str, tier: Tier, lo: u64, hi: u64, timeout: Duration, trace: 
         cmd.env("CVX_TRACE", "1");
     } else {
         cmd.env_remove("CVX_TRACE");
+    }
+    if skip > 0 {
+        cmd.env("CVX_SKIP", skip.to_string());
+    } else {
+        cmd.env_remove("CVX_SKIP");
     }
     let mut child = match cmd.spawn() {
         Ok(c) => c,
@@ -467,31 +497,46 @@ pub fn supervise(check: &dyn Check, tier: Tier) -> i32 {
                 let lo = c * chunk;
                 let hi = ((c + 1) * chunk).min(units);
                 let timeout = unit_timeout * (hi - lo).min(8) as u32;
-                match run_worker(id, tier, lo, hi, timeout, false) {
+                match run_worker(id, tier, lo, hi, timeout, false, 0) {
                     WorkerOutcome::Ok(r) => {
                         total.lock().unwrap().merge(r);
                         units_done.fetch_add(hi - lo, Ordering::SeqCst);
                     }
                     _ => {
-                        // pin the failing unit(s): one unit per process, in trace mode
+                        // pin the failing case(s): one unit per process, in trace mode; a unit that
+                        // is a plain list of cases is resumed behind the case that killed the worker
                         for u in lo..hi {
-                            match run_worker(id, tier, u, u + 1, unit_timeout, true) {
-                                WorkerOutcome::Ok(r) => {
-                                    total.lock().unwrap().merge(r);
-                                }
-                                WorkerOutcome::Died(how, last) => {
-                                    let v = check.crash_violation(tier, u, &format!("crash-{how}"), last);
-                                    let mut t = total.lock().unwrap();
-                                    t.evaluations += 1;
-                                    t.outcome(format!("worker-crash-{how}"));
-                                    t.violation(v);
-                                }
-                                WorkerOutcome::Hung(last) => {
-                                    let v = check.crash_violation(tier, u, "hang", last);
-                                    let mut t = total.lock().unwrap();
-                                    t.evaluations += 1;
-                                    t.outcome("worker-hang");
-                                    t.violation(v);
+                            let mut skip = 0u64;
+                            let mut crashes = 0;
+                            loop {
+                                match run_worker(id, tier, u, u + 1, unit_timeout, true, skip) {
+                                    WorkerOutcome::Ok(r) => {
+                                        total.lock().unwrap().merge(r);
+                                        break;
+                                    }
+                                    other => {
+                                        let (how, last) = match other {
+                                            WorkerOutcome::Died(how, last) => (format!("crash-{how}"), last),
+                                            WorkerOutcome::Hung(last) => ("hang".to_string(), last),
+                                            WorkerOutcome::Ok(_) => unreachable!(),
+                                        };
+                                        let pos = last.as_ref().and_then(|l| l.0);
+                                        let v = check.crash_violation(tier, u, &how, last.map(|l| l.1));
+                                        {
+                                            let mut t = total.lock().unwrap();
+                                            t.evaluations += 1;
+                                            t.outcome(format!("worker-{how}"));
+                                            t.violation(v);
+                                        }
+                                        crashes += 1;
+                                        match pos {
+                                            Some(k) if crashes < 200 => skip = k + 1,
+                                            _ => {
+                                                total.lock().unwrap().count("units_abandoned_after_crash", 1);
+                                                break;
+                                            }
+                                        }
+                                    }
                                 }
                             }
                             units_done.fetch_add(1, Ordering::SeqCst);
